@@ -426,6 +426,16 @@ func genWorld(t *rapid.T) world.World {
 			w.Registry[0].Versions = append(w.Registry[0].Versions, world.RegVersion{V: "7.0.0" + m, Real: real})
 			w.Script = append(w.Script, world.AddCall{Kind: "final", Addr: w.Registry[0].Addr, Version: "7.0.0" + m})
 		}
+		if rapid.Bool().Draw(t, "unpinned?") {
+			// ... or none of them is pinned, they lead to different packages, and requests leave the choice
+			// among them to the builder: it has to be the same choice in every build
+			n := len(w.Registry[0].Versions)
+			for i := 0; i < 3; i++ {
+				w.Registry[0].Versions[n-3+i].Real = w.Remotes[i%len(w.Remotes)].Addr
+			}
+			w.Script = []world.AddCall{{Kind: "registry", Addr: w.Registry[0].Addr}, {Kind: "registry", Addr: w.Registry[0].Addr + "//modules/a"},
+				{Kind: "remote", Addr: w.Remotes[0].Addr}}
+		}
 		if len(w.Script) > 4 {
 			w.Script = w.Script[len(w.Script)-4:]
 		}
